@@ -107,6 +107,13 @@ class C14(core.Check):
             {'mem': 65534, 'prog': [[10, 'GOTO 20'], [20, 'END']], 'on_error': None, 'events': [], 'args': [65529, None, 1]},
             {'mem': 65534, 'prog': [[10, 'GOTO 20'], [20, 'END']], 'on_error': None, 'events': [], 'args': [65529, 20, 1]},
             {'mem': 65534, 'prog': [[10, 'GOTO 20'], [20, 'END']], 'on_error': None, 'events': [], 'args': [None, None, 0]},
+            # new number 0: references to the line that becomes line 0 (seeded change: `if not newjump`)
+            {'mem': 65534, 'prog': [[10, 'GOTO 10:GOSUB 10:IF A THEN 10 ELSE 10'], [20, 'ON A GOTO 10,20:ON A GOSUB 10'],
+                                    [30, 'RESTORE 10:RUN 10'], [40, 'RESUME 10:IF ERL=10 THEN 10'], [50, 'ON ERROR GOTO 10']],
+             'on_error': 10, 'events': [10], 'args': [0, None, 1]},
+            {'mem': 65534, 'prog': [[5, 'GOTO 20'], [20, 'GOSUB 20:GOTO 5'], [30, 'IF ERL=20 THEN 20']],
+             'on_error': None, 'events': [20], 'args': [0, 20, 65529]},
+            {'mem': 65534, 'prog': [[7, 'GOTO 7']], 'on_error': None, 'events': [], 'args': [0, 7, None]},
             {'mem': 65534, 'prog': [], 'on_error': None, 'events': [], 'args': [None, None, None]},
             {'mem': 65534, 'prog': [[65529, 'GOTO 65529']], 'on_error': None, 'events': [], 'args': [None, 65529, None]},
         ]
@@ -123,20 +130,32 @@ class C14(core.Check):
                 nums.add(rng.choice([0, 1, 5, 65529, 255, 256, 8224]) if r < 0.08 else
                          10 * rng.randrange(1, 40) if r < 0.8 else rng.randrange(0, 65530))
             nums = sorted(nums)
+            # RENUM arguments first: boundary-dense (new 0/1/limits, step 1, start = first/last/missing line)
+            pool = [None, 0, 0, 0, 1, 1, 5, 10, 100, 1000, 30000, 65000, 65500, 65520, 65528, 65529] + nums
+            new = rng.choice(pool) if rng.random() < 0.75 else rng.randrange(0, 65530)
+            r = rng.random()
+            old = (None if r < 0.2 else nums[0] if r < 0.35 else nums[-1] if r < 0.5 else rng.choice(nums) if r < 0.75
+                   else rng.choice(nums) + 1 if r < 0.85 else rng.randrange(0, 65530))
+            old = min(old, 65529) if old is not None else None
+            step = rng.choice([None, None, 1, 1, 1, 2, 5, 10, 100, 1000, 0, 7]) if rng.random() < 0.9 else rng.randrange(0, 3000)
+            if rng.random() < 0.1 and step:
+                # last new number exactly at / just over the limit 65529
+                cnt = len([k for k in nums if k >= (old or 0)])
+                new = min(65529, max(0, 65529 - max(cnt - 1, 0) * step + rng.choice([0, 0, 1, -1])))
+            renumbered = [k for k in nums if k >= (old or 0)]
+            first = renumbered[0] if renumbered else None
             prog = []
             for k in nums:
-                if rng.random() < 0.6:
+                if rng.random() < 0.65:
                     t = rng.choice(REF_LINES)
                     while '{n}' in t:
-                        tgt = rng.choice(nums) if rng.random() < 0.85 else rng.choice([0, 7, 65529, 65528, rng.randrange(65530)])
+                        q = rng.random()
+                        tgt = (first if first is not None and q < 0.4 else rng.choice(nums) if q < 0.85
+                               else rng.choice([0, 7, 65529, 65528, rng.randrange(65530)]))
                         t = t.replace('{n}', str(tgt), 1)
                 else:
                     t = progen.line_body(rng, nums)
                 prog.append([k, t])
-            pool = [None, 1, 5, 10, 100, 1000, 30000, 65000, 65500, 65520, 65528, 65529] + nums
-            new = rng.choice(pool) if rng.random() < 0.7 else rng.randrange(0, 65530)
-            old = rng.choice([None] + nums + nums) if rng.random() < 0.8 else rng.randrange(0, 65530)
-            step = rng.choice([None, None, 1, 2, 5, 10, 100, 1000, 0, 7]) if rng.random() < 0.9 else rng.randrange(0, 3000)
             args = [new, old, step]
             ok = self.expected_map(nums, args) is not None
             hist['accepted_expected' if ok else 'rejected_expected'] += 1
